@@ -169,6 +169,16 @@ func runC17(c *Ctx) {
 	c.ruleHTMLTraits()
 	c.ruleMimeAndSVG()
 	c.ruleBooleanWriter()
+	// the traits of the tables reach the minifier through the token slots: a slot that keeps the traits of the token
+	// that used it before attributes a table entry to a token that has none (text, svg, math)
+	if pk := c.P.Pkg("html"); pk != nil {
+		c.alsoUnder(map[string]string{"R03.5": "R17.tokentraits"}, func(construct string) bool {
+			return strings.Contains(construct, "TokenBuffer.read/") || strings.HasPrefix(construct, "floor/token fields")
+		}, func() {
+			c.R.Rule("R03.5", "html.TokenBuffer.read assigns every field of the reused token slot on every path (clause (f) of the token buffer rule, see C03): Traits, Hash and AttrVal of a text, svg or math token are those the function computes for it — zero — and not those of the tag or attribute that used the slot before")
+			c.tokenSlotFullyRewritten("R03.5", pk)
+		})
+	}
 }
 
 // R17.H
